@@ -76,6 +76,17 @@ func runC10Shapes(t *testing.T, cases []map[string]interface{}, ev *vEvents) {
 		w.mux = vWrapMux(w)
 		worlds[i] = w
 	}
+	// the Okta routes only do anything when Okta is the password backend: a second set of worlds for them
+	oktaWorlds := make([]*vWorld, nw)
+	for i := range oktaWorlds {
+		w := newWorld(vWorldOpts{CertCfg: []string{"password"}, WebUICfg: []string{"password"}, AdminUsers: []string{"alice"}})
+		w.st.Config.Okta.Domain = "example"
+		w.st.Config.Okta.Enable2FA = true
+		w.attachOkta(map[string]string{"alice": "pw-alice"})
+		w.rawMux = verifServiceMux(w.st)
+		w.mux = vWrapMux(w)
+		oktaWorlds[i] = w
+	}
 	shapes := vShapes(worlds[0])
 	type job struct {
 		path, method string
@@ -92,6 +103,9 @@ func runC10Shapes(t *testing.T, cases []map[string]interface{}, ev *vEvents) {
 	vParallel(nw, len(jobs), func(wk, i int) {
 		j := jobs[i]
 		w := worlds[wk]
+		if strings.Contains(strings.ToLower(j.path), "okta") {
+			w = oktaWorlds[wk]
+		}
 		path := j.path
 		if strings.HasSuffix(path, "/") && path != "/" {
 			path += "alice"
@@ -112,6 +126,9 @@ func runC10Shapes(t *testing.T, cases []map[string]interface{}, ev *vEvents) {
 			"out": map[string]interface{}{"panic": r.Panic != "", "status": r.Status, "what": r.Panic}})
 	})
 	for _, w := range worlds {
+		w.Close()
+	}
+	for _, w := range oktaWorlds {
 		w.Close()
 	}
 }
